@@ -223,8 +223,9 @@ Print Assumptions closeness_def.
 (** PARTIAL (bounded): the coded Brandes accumulation equals the textbook betweenness (sum over
     ordered pairs s <> v <> t of sigma_st(v) / sigma_st, halved for a symmetric adjacency) on every
     digraph with at most 3 nodes (loops allowed) and every loop-free digraph on 4 nodes.
-    Missing for the unbounded statement: the sigma / delta recurrences by induction over the BFS
-    order; beyond 4 nodes the model is tied to the definition by the harness (brute-force oracle). *)
+    (Kept under its original name as a bounded cross-check by computation. The unbounded statement that was
+    missing when this was written - sigma / delta recurrences by induction over the BFS order - is now
+    proved for every graph: see section 7, brandes_exact.) *)
 Theorem brandes_exact_small_partial :
   forallb (fun g => list_eqb (betweenness g) (betweenness_spec g))
           (all_digraphs 1 true ++ all_digraphs 2 true ++ all_digraphs 3 true ++ all_digraphs 4 false) = true.
